@@ -1049,7 +1049,7 @@ PROPS["C16"] = dict(
 
 PROPS["C15"] = dict(
     lean_targets=["SJ.Props.C15", "SJ.Audit.C15"],
-    configs=dict(quick=["d", "fr"], thorough=["d", "fr", "po", "ap"]),
+    configs=dict(quick=["d", "ap"], thorough=["d", "fr", "po", "ap"]),
     gen_keys=["tovalue."],
     rule="serializer programs replayed against serde_json::to_value (tov) and the triple to_value / to_string / "
          "from_str(to_string(f32-widened data)) (tovagree): a fixed corpus (every serde::Serializer entry point; every integer "
